@@ -632,7 +632,57 @@ VERIF_SUB_W(deps_reentrant, 0.002) {
   try {
     Evaluator ev(std::vector<std::string>{"x"}, text, manager);
     ev.setVariableValue("x", g.x[0]);
-    c.close(ev.getValue(), ref.v, tolOf(ref), "C13.deps.nested_same_function", "'" + text + "' with fctA(u,v):=" + btext + " at x=" + dbl(g.x[0]));
+    const std::string ctx = "'" + text + "' with fctA(u,v):=" + btext + " at x=" + dbl(g.x[0]);
+    c.close(ev.getValue(), ref.v, tolOf(ref), "C13.deps.nested_same_function", ctx);
+    // the same call pattern through the other evaluation paths (ExternalFunctionExpr2 after
+    // resolveDependencies / removeDependencies / copy, derivative of an external function call);
+    // only reached once the first assertion holds
+    {
+      auto r = ev.resolveDependencies();
+      r->setVariableValue(0, g.x[0]);
+      c.close(r->getValue(), ref.v, tolOf(ref), "C13.deps.nested_same_function.resolveDependencies", ctx);
+      Evaluator e2(ev);
+      e2.removeDependencies();
+      c.close(e2.getValue(), ref.v, tolOf(ref), "C13.deps.nested_same_function.removeDependencies", ctx);
+      Evaluator e3(ev);
+      c.close(e3.getValue(), ref.v, tolOf(ref), "C13.deps.nested_same_function.copy", ctx);
+      // derivative (the body and the arguments only hold differentiable nodes when no unsupported function was drawn)
+      std::vector<east::Dual<E>> dv{{E{static_cast<R>(g.x[0]), 0}, E{1, 0}}};
+      east::Env<east::Dual<E>> denv;
+      denv.vars = dv;
+      denv.calls = g.calls;
+      denv.csts = &constants();
+      bool haveRef = true;
+      E dref;
+      try {
+        dref = east::eval<east::Dual<E>>(*root, denv).d;
+      } catch (const east::Ill&) {
+        haveRef = false;
+      }
+      std::shared_ptr<tfel::math::parser::ExternalFunction> d;
+      try {
+        d = ev.differentiate(0);
+      } catch (const std::exception&) {
+        c.tag("deps_nested_same_function.derivative_unsupported");
+      }
+      if (d && haveRef) {
+        d->setVariableValue(0, g.x[0]);
+        double dval = 0;
+        bool ok = true;
+        try {
+          dval = d->getValue();
+        } catch (const std::exception&) {
+          ok = false;
+        }
+        if (ok) {
+          c.tag("deps_nested_same_function.derivative_checked");
+          c.close(dval, dref.v, 4096 * dref.e + TINY, "C13.deps.nested_same_function.derivative", ctx);
+          auto dr = d->resolveDependencies();
+          dr->setVariableValue(0, g.x[0]);
+          c.close(dr->getValue(), dref.v, 4096 * dref.e + TINY, "C13.deps.nested_same_function.derivative.resolveDependencies", ctx);
+        }
+      }
+    }
   } catch (const std::exception& e) {
     c.check(false, "C13.deps.exception", "'" + text + "' with fctA(u,v):=" + btext + ": " + e.what());
   }
